@@ -17,6 +17,7 @@ import (
 	"context"
 	"errors"
 	"reflect"
+	"runtime"
 	"sync"
 	"sync/atomic"
 	"time"
@@ -285,7 +286,21 @@ func (c *Caller) begin(ctx context.Context) []call {
 			defer cancel()
 			select {
 			case <-ctx.Done():
-				responder <- emptyCall
+				// Withdraw the responder. If it is no longer registered, a publisher has taken
+				// it and is about to fill it or to register it again: take what it delivers.
+				// (Sending the empty answer into the responder, as before, blocked forever
+				// when the publisher had just filled it, and left it registered otherwise.)
+				for !c.responders.RemoveCb(id, func(_ string, v interface{}, exists bool) bool {
+					return exists && v.(chan []call) == responder
+				}) {
+					select {
+					case result := <-responder:
+						return result
+					default:
+						runtime.Gosched()
+					}
+				}
+				return emptyCall
 			case result := <-responder:
 				return result
 			}
